@@ -207,20 +207,30 @@ let cop_of_str (s : string) : cop =
        Model.send_pages_with.  Calls for page i: the i-th '~' field, calls separated by '/', written with ':' for '.' *)
     let pages = pages_of_str (String.concat "." rest) in
     let strip f = if String.length f > 0 && f.[0] = '@' then String.sub f 1 (String.length f - 1) else f in
-    let pre = List.map (fun f -> let f = strip f in if f = "-" then [] else
-                           List.map (fun c -> plain_cop_of_str (String.concat "." (String.split_on_char ':' c)))
-                             (String.split_on_char '/' f)) (String.split_on_char '~' nested) in
+    (* one call of the iterator: "<call>" (its protocol failure is dropped: Model.catch) or "!<call>" (its panic is
+       caught too: Model.catch_all); SNX:a:pages = send_pages over a source that yields the pages and then panics *)
+    let call_prog (c : string) : unit prog =
+      let caught_all = String.length c > 0 && c.[0] = '!' in
+      let c = if caught_all then String.sub c 1 (String.length c - 1) else c in
+      let toks = String.split_on_char ':' c in
+      let wrap p = if caught_all then catch_all p else catch p in
+      (match toks with
+       | "SNX" :: a' :: r -> wrap (send_pages_then_panic (num a') (pages_of_str (String.concat "." r)))
+       | _ -> wrap (cop_prog (plain_cop_of_str (String.concat "." toks)))) in
+    let rec seq = function [] -> Ret () | c :: t -> bind (call_prog c) (fun _ -> seq t) in
+    let pre = List.map (fun f -> let f = strip f in if f = "-" then Ret () else seq (String.split_on_char '/' f))
+        (String.split_on_char '~' nested) in
     let rec zip ps cs = match ps, cs with
       | [], _ -> []
-      | p :: ps', [] -> ([], p) :: zip ps' []
-      | p :: ps', c :: cs' -> (c, p) :: zip ps' cs' in
+      | p :: ps', [] -> (Ret (), p.p_bytes) :: zip ps' []
+      | p :: ps', c :: cs' -> (c, p.p_bytes) :: zip ps' cs' in
     (* a first field that begins with '@': the calls made each time the iterator is cloned -- in the model an item of no
        bytes in front of the pages (no chunk is sent for it; its conversation is held once per attempt, after the
        acknowledgement, also when there are no pages) *)
     let items = if String.length nested > 0 && nested.[0] = '@'
-      then (match pre with c :: rest -> (c, { p_w = N0; p_h = N0; p_bytes = [] }) :: zip pages rest | [] -> zip pages [])
+      then (match pre with c :: rest -> (c, []) :: zip pages rest | [] -> zip pages [])
       else zip pages pre in
-    mk (send_pages_with (num a) items) style_s
+    mk (send_pages_gen (num a) items) style_s
   | ["SHW"; a; fuel] -> mk (show_loaded_page (nat_of_int (int_of_string fuel)) (num a)) unit_s
   | ["LNX"; a; fuel] -> mk (load_next_page (nat_of_int (int_of_string fuel)) (num a)) unit_s
   | ["BYE"; a] -> mk (shut_down (num a)) unit_s
